@@ -182,3 +182,11 @@ pub fn shift_token_line_stub(
 pub fn rename_sort_char(a: char, b: char) -> std::cmp::Ordering {
     crate::rules::verif_sort_char(a, b)
 }
+
+/// What replaces a removed call in expression position (`remove_call_match`): an expression that
+/// evaluates the preserved arguments and yields nil.
+pub fn expressions_as_expression(
+    expressions: Vec<crate::nodes::Expression>,
+) -> crate::nodes::Expression {
+    crate::utils::expressions_as_expression(expressions)
+}
